@@ -213,6 +213,11 @@ func init() {
 				return Tuple{x.C.FC(0), x.C.IntC(64, int64(pos)), x.C.False()}
 			}
 			if tok, ok := buf.Arr.Sub[buf.Off+pos].V.(NumTok); ok {
+				if tok.Lossy != "" {
+					// not the shortest round-trip form: the parsed value is some
+					// function of f that need not be f
+					return Tuple{x.C.UF("reparse_"+tok.Lossy, smt.F64, tok.F), x.C.IntC(64, int64(pos+1)), x.C.True()}
+				}
 				return Tuple{tok.F, x.C.IntC(64, int64(pos+1)), x.C.True()}
 			}
 			return Tuple{x.C.FC(0), x.C.IntC(64, int64(pos)), x.C.False()}
